@@ -5,6 +5,13 @@ SocketTransportSink -> VarzSocketWrapper -> ScalesSocket) runs on a fake socket 
 server's end of that socket is the Thrift library itself: the generated `Processor` of the
 interface over the pure-Python `TBinaryProtocol` decodes what scales wrote, calls a scripted
 handler and encodes the reply, which is delivered to the client's socket cut into pieces.
+
+Two kinds of scripts, two Lean components:
+  thriftcodec   one method, one connection, one call at a time (`rounds`)
+  thriftshared  `kind: multi` — ONE ThriftSerializerSink (it sits above balancer and pool, so all
+                connections of a client share it) above two or more real SocketTransportSinks; calls
+                of different methods are open at the same time and the replies are delivered in any
+                order, interleaved piece by piece
 """
 import collections
 import random
@@ -19,8 +26,8 @@ SOURCE_CONSTANTS = {
     'Scales.ThriftCodec.mtReply': ('from thrift.Thrift import TMessageType as T', 'T.REPLY'),
     'Scales.ThriftCodec.mtException': ('from thrift.Thrift import TMessageType as T', 'T.EXCEPTION'),
 }
-COMPONENT = 'thriftcodec'
-QUICK = dict(gen=3000)
+COMPONENT = 'thriftcodec'          # and 'thriftshared': every case names its own component
+QUICK = dict(gen=4200)
 THOROUGH = dict(gen=100000)
 
 TRUSTED = [
@@ -28,6 +35,8 @@ TRUSTED = [
     'hand-written generated-style interface harness/props/c14_iface.py (spec-driven read/write calling the '
     'protocol methods the generated code calls)',
     'fake socket handle (recv/recv_into/send/sendall) delivering the reply stream in pieces',
+    'several calls at once: a trivial router sink below the real ThriftSerializerSink stands in for balancer + pool; '
+    'it forwards each call to the real SocketTransportSink (own ScalesSocket, own fake handle) the script names',
 ]
 ASSUMPTIONS = [
     'text arguments are valid Unicode (no lone surrogates); i32/i64 values are in range (out-of-range integers are '
@@ -39,9 +48,13 @@ ASSUMPTIONS = [
     'predicts EOFError exactly (correspondence)',
     'both codec back-ends of the library are exercised on the client side (accelerated C and pure Python); the '
     'oracle always runs the pure-Python protocol',
+    'several calls at once: a serial connection carries one transaction at a time (a call is sent on a connection '
+    'with no pending call which the server has not closed; guaranteed by the pool, C08) and the methods of an '
+    'interface have distinct names; no deadline is set on the calls',
 ]
-RULE = ('scripts drawn from the seeded generator plus an exhaustive sweep of every two-piece split and every '
-        'truncation point of five fixed reply frames; distinct = distinct (cfg, op list) where the op list '
+RULE = ('scripts drawn from the seeded generator (30% of them with 2-5 calls open at once on 2-4 connections) plus an '
+        'exhaustive sweep of every two-piece split and every truncation point of five fixed reply frames and of every '
+        'ordered pair of Store methods open at once with the replies in both orders; distinct = distinct (cfg, op list) where the op list '
         'carries arguments, reply and the concrete piece sizes; non-trivial = anything beyond an ASCII call '
         'answered by a normal value delivered in one piece')
 
@@ -241,7 +254,7 @@ def gen_round(rng, tier, mod, method):
     return {'args': args, 'handler': handler, 'chunks': gen_chunks(rng)}
 
 
-def gen_script(rng, tier):
+def gen_single(rng, tier):
     if rng.random() < 0.3:
         name, method = 'hello', 'hi'
     else:
@@ -262,7 +275,7 @@ EXH = [
 ]
 
 
-def exhaustive(tier, shard, shards):
+def exhaustive_single(tier, shard, shards):
     """every split of the reply stream into two pieces and every truncation point, for five
     fixed transactions, on both socket paths (quick: the wrapped path only)"""
     k = 0
@@ -279,7 +292,7 @@ def exhaustive(tier, shard, shards):
                                        'chunks': {'sizes': [c] if c else [], 'rest': rest}}]}
 
 
-def shrink(script):
+def shrink_single(script):
     rounds = script['rounds']
     if len(rounds) > 1:
         for i in range(len(rounds)):
@@ -587,7 +600,7 @@ def canon_outcome(ar, mod, method):
     return '(err %s (other %s))' % (w, type(inner).__name__)
 
 
-def run_script(script):
+def run_single(script):
     import rt
     install()
     from thrift.protocol.TBinaryProtocol import TBinaryProtocolFactory, TBinaryProtocolAcceleratedFactory
@@ -754,4 +767,472 @@ def nontrivial(case):
     t = set(case.get('tags', []))
     return bool(t & {'non-ascii', 'empty-string', 'struct', 'declared-exception', 'app-exception', 'void',
                      'missing-result', 'chunked', 'server-closed-early', 'multi-round', 'negative-int',
-                     'handler-crash', 'partial-sends', 'long-string'})
+                     'handler-crash', 'partial-sends', 'long-string', 'overlap', 'multi'})
+
+
+# ====================================================================== several calls open at once
+# One ThriftSerializerSink (one MessageSerializer) above several real SocketTransportSinks: the
+# serializer sink of a client sits above the balancer and the pool and is shared by all
+# connections.  A trivial router sink stands in for balancer + pool: it forwards a call to the
+# connection the script names (the pool's choice is an input of the model, not a prediction).
+#
+# script: {'kind': 'multi', 'iface', 'accel', 'wrap', 'send_caps',
+#          'events': [['call', k, method, conn, args, handler (, parked)] | ['send', k] | ['chunk', k, n] |
+#                     ['rest', k, 'all'|'ones'] | ['close', k]]}
+# Events that make no sense when they are reached (bytes for a call that is complete, a call on
+# a connection that is busy -> the next free one, ...) are resolved here, so that every op list
+# produced lies inside `wf` of the component.
+SHARED = 'thriftshared'
+IFACE_METHODS = {'hello': HELLO_METHODS, 'store': STORE_METHODS}
+MULTI_ONES = 48
+
+
+def gen_handler(rng, tier, mod, method):
+    return gen_round(rng, tier, mod, method)['handler']
+
+
+def gen_multi(rng, tier):
+    name = 'hello' if rng.random() < 0.12 else 'store'
+    mod, _, _ = iface(name)
+    methods = IFACE_METHODS[name]
+    ncalls = rng.choice([2, 2, 2, 3, 3, 4, 5])
+    nconn = rng.choice([2, 2, 3])
+    events, pending, made = [], [], 0
+    while made < ncalls or pending:
+        r = rng.random()
+        if made < ncalls and (not pending or r < 0.45):
+            method = rng.choice(methods)
+            args_cls = method_info(mod, method)[0]
+            args = gen_fields(rng, tier, args_cls.thrift_spec, rng.choice([0.0, 0.2, 0.5]))
+            handler = gen_handler(rng, tier, mod, method)
+            ev = ['call', made, method, rng.randrange(nconn), args, handler]
+            if rng.random() < 0.25:
+                ev.append(True)          # parked below the serializer until it is sent
+            events.append(ev)
+            pending.append(made)
+            made += 1
+            continue
+        k = rng.choice(pending)
+        r = rng.random()
+        if r < 0.08:
+            events.append(['send', k])
+            continue
+        if r < 0.45:
+            events.append(['rest', k, 'ones' if rng.random() < 0.15 else 'all'])
+            pending.remove(k)
+        elif r < 0.93:
+            events.append(['chunk', k, rng.choice([1, 2, 3, 4, 5, 7, 11, 16, 33, 100])])
+        else:
+            events.append(['close', k])
+            pending.remove(k)
+    return {'kind': 'multi', 'iface': name, 'accel': rng.random() < 0.5, 'wrap': rng.random() < 0.65,
+            'send_caps': rng.choice([None, None, None, [1], [3, 1, 100], [7]]), 'events': events}
+
+
+# a fixed normal (or declared-exception) answer per method for the systematic part
+EXH_ANSWER = {
+    'hi': ([[1, ['s', '6162']]], ['ret', ['s', 'c3a9']]),
+    'ping': ([], ['ret', None]),
+    'put': ([[2, ['b', True]]], ['raise', 1, [[1, ['s', '6e6f']]]]),
+    'find': ([[1, ['s', '6b']], [2, ['i64', 7]]], ['ret', ['st', [[1, ['s', '6b']], [2, ['i32', 3]]]]]),
+    'count': ([[1, ['i32', -1]], [2, ['i64', 2 ** 40]]], ['ret', ['i64', 2 ** 40 - 1]]),
+    'has': ([[1, ['s', '00ff']]], ['ret', ['b', True]]),
+    'size': ([], ['ret', ['i32', 17]]),
+    'echo': ([[1, ['s', 'c3a9']]], ['ret', ['s', '']]),
+}
+
+
+def exhaustive_multi(tier, shard, shards):
+    """every ordered pair of methods of the Store interface open at once on two connections,
+    the replies arriving in both orders (thorough: also interleaved byte by byte, and triples
+    sharing a third connection)"""
+    k = 0
+    orders = [[0, 1], [1, 0]]
+    for x in STORE_METHODS:
+        for y in STORE_METHODS:
+            for order in orders:
+                for mode in (('all', 'ilv') if tier == 'thorough' else ('all',)):
+                    k += 1
+                    if k % shards != shard:
+                        continue
+                    ev = [['call', 0, x, 0, EXH_ANSWER[x][0], EXH_ANSWER[x][1]],
+                          ['call', 1, y, 1, EXH_ANSWER[y][0], EXH_ANSWER[y][1]]]
+                    if mode == 'ilv':
+                        for _ in range(6):
+                            ev += [['chunk', order[0], 3], ['chunk', order[1], 2]]
+                    ev += [['rest', order[0], 'all'], ['rest', order[1], 'all']]
+                    yield {'kind': 'multi', 'iface': 'store', 'accel': bool(k % 2), 'wrap': bool(k % 3),
+                           'send_caps': None, 'events': ev}
+            # x is serialized, waits below the serializer (pool queue), y is serialized and sent, then x is sent
+            k += 1
+            if k % shards == shard:
+                yield {'kind': 'multi', 'iface': 'store', 'accel': bool(k % 2), 'wrap': bool(k % 3), 'send_caps': None,
+                       'events': [['call', 0, x, 0, EXH_ANSWER[x][0], EXH_ANSWER[x][1], True],
+                                  ['call', 1, y, 1, EXH_ANSWER[y][0], EXH_ANSWER[y][1]],
+                                  ['send', 0], ['rest', 0, 'all'], ['rest', 1, 'all']]}
+    if tier == 'thorough':
+        for x in STORE_METHODS:
+            for y in STORE_METHODS:
+                for z in ('ping', 'find', 'size'):
+                    k += 1
+                    if k % shards != shard:
+                        continue
+                    ev = [['call', 0, x, 0, EXH_ANSWER[x][0], EXH_ANSWER[x][1]],
+                          ['call', 1, y, 1, EXH_ANSWER[y][0], EXH_ANSWER[y][1]],
+                          ['rest', 1, 'all'],
+                          ['call', 2, z, 1, EXH_ANSWER[z][0], EXH_ANSWER[z][1]],
+                          ['rest', 0, 'all'], ['rest', 2, 'all']]
+                    yield {'kind': 'multi', 'iface': 'store', 'accel': bool(k % 2), 'wrap': True,
+                           'send_caps': None, 'events': ev}
+
+
+def shrink_multi(script):
+    ev = script['events']
+    ids = [e[1] for e in ev if e[0] == 'call']
+    if len(ids) > 1:
+        for k in ids:
+            s = dict(script)
+            s['events'] = [e for e in ev if e[1] != k]
+            yield s
+    for flag in ('accel', 'wrap'):
+        if script.get(flag):
+            s = dict(script)
+            s[flag] = False
+            yield s
+    if script.get('send_caps'):
+        s = dict(script)
+        s['send_caps'] = None
+        yield s
+    for i, e in enumerate(ev):
+        def with_event(ne):
+            s = dict(script)
+            s['events'] = ev[:i] + ([ne] if ne is not None else []) + ev[i + 1:]
+            return s
+        if e[0] in ('chunk', 'close', 'send'):
+            yield with_event(None)
+        if e[0] == 'call' and len(e) > 6 and e[6]:
+            yield with_event(e[:6])
+        if e[0] == 'rest' and e[2] != 'all':
+            yield with_event(['rest', e[1], 'all'])
+        if e[0] == 'call':
+            k, method, conn, args, h = e[1], e[2], e[3], e[4], e[5]
+            park = e[6:]
+            for j in range(len(args)):
+                yield with_event(['call', k, method, conn, args[:j] + args[j + 1:], h] + park)
+            for j, (fid, v) in enumerate(args):
+                for v2 in shrink_value(v):
+                    yield with_event(['call', k, method, conn, args[:j] + [[fid, v2]] + args[j + 1:], h] + park)
+            if h[0] == 'ret' and h[1] is not None:
+                for v2 in shrink_value(h[1]):
+                    yield with_event(['call', k, method, conn, args, ['ret', v2]] + park)
+            if h[0] == 'raise':
+                for j in range(len(h[2])):
+                    yield with_event(['call', k, method, conn, args, ['raise', h[1], h[2][:j] + h[2][j + 1:]]] + park)
+            if h[0] == 'app' and h[2]:
+                yield with_event(['call', k, method, conn, args, ['app', h[1], '']] + park)
+
+
+def sig_text(mod, method):
+    _, _, success, declared = method_info(mod, method)
+    return '(x%s %s (%s))' % (method.encode().hex(), 'T' if success is not None else 'F',
+                              ' '.join(str(e[0]) for e in declared))
+
+
+def handler_tags(hb, success, declared, tags):
+    if hb[0] == 'ret':
+        if success is None:
+            tags.add('void')
+        elif hb[1] is None:
+            tags.add('missing-result')
+        else:
+            tags.add('value')
+            value_tags([[0, hb[1]]], tags)
+    elif hb[0] == 'raise':
+        tags.add('declared-exception')
+        if hb[1] != declared[0][0]:
+            tags.add('declared-after-gap')
+        value_tags([[hb[1], ['st', hb[2]]]], tags)
+    elif hb[0] == 'app':
+        tags.add('app-exception')
+        if hb[2] is None:
+            tags.add('app-no-message')
+    else:
+        tags.add('handler-crash')
+
+
+def run_multi(script):
+    import rt
+    install()
+    from thrift.protocol.TBinaryProtocol import TBinaryProtocolFactory, TBinaryProtocolAcceleratedFactory
+    from scales.asynchronous import AsyncResult
+    from scales.constants import ChannelState, SinkProperties
+    from scales.dispatch import MessageDispatcher
+    from scales.scales_socket import ScalesSocket
+    from scales.sink import ClientMessageSink
+    from scales.thrift.sink import ThriftSerializerSink, SocketTransportSink
+    name = script['iface']
+    mod, Iface, _ = iface(name)
+    methods = IFACE_METHODS[name]
+    tags = {'multi'}
+    steps = []
+    cfg = ' '.join(sig_text(mod, m) for m in methods)
+    FakeHandle.send_caps = script.get('send_caps')
+    pf = TBinaryProtocolAcceleratedFactory() if script.get('accel') else TBinaryProtocolFactory()
+    props = {SinkProperties.Endpoint: Ep, SinkProperties.ServiceInterface: Iface, SinkProperties.Label: 'c14'}
+    wrap = bool(script.get('wrap'))
+    tags.add('varz-wrapper' if wrap else 'raw-socket')
+    tags.add('accel' if script.get('accel') else 'pure-python')
+    if script.get('send_caps'):
+        tags.add('partial-sends')
+
+    class Router(ClientMessageSink):
+        """balancer + pool reduced to their effect on this property: which connection a call
+        travels on.  Every connection is a real SocketTransportSink."""
+
+        def __init__(self):
+            super(Router, self).__init__()
+            self.transports, self.handles, self.route = [], [], 0
+            self.hold, self.parked = None, {}
+
+        def add(self):
+            if wrap:
+                t = SocketTransportSink.Builder().CreateSink(props)       # VarzSocketWrapper(ScalesSocket)
+            else:
+                t = SocketTransportSink(ScalesSocket(Ep.host, Ep.port), 'c14')
+            t.Open()
+            rt.drain()
+            self.transports.append(t)
+            self.handles.append(FakeHandle.last)
+            return len(self.transports) - 1
+
+        def Open(self):
+            return AsyncResult.Complete()
+
+        def Close(self):
+            for t in self.transports:
+                t.Close()
+
+        @property
+        def state(self):
+            return ChannelState.Open
+
+        def AsyncProcessRequest(self, sink_stack, msg, stream, headers):
+            if self.hold is not None:
+                self.parked[self.hold] = (sink_stack, msg, stream, headers)
+                return
+            self.transports[self.route].AsyncProcessRequest(sink_stack, msg, stream, headers)
+
+        def release(self, k, c):
+            self.transports[c].AsyncProcessRequest(*self.parked.pop(k))
+
+        def AsyncProcessResponse(self, sink_stack, context, stream, msg):
+            pass
+
+    router = Router()
+
+    class RouterProvider(object):
+        def CreateSink(self, properties):
+            return router
+
+    ser = ThriftSerializerSink.Builder(protocol_factory=pf)
+    ser.next_provider = RouterProvider()
+    disp = MessageDispatcher(Iface, ser, None, props)
+    disp.Open()
+    rt.drain()
+
+    calls = {}            # k -> dict(method, conn, ar, stream, pos, answered, closed, done)
+    owner = {}            # conn -> last call sent on it
+    dead = set()
+    order = []            # call ids in the order they were made
+
+    def pending(k):
+        c = calls[k]
+        return not c['done']
+
+    def observe(k):
+        c = calls[k]
+        out = canon_outcome(c['ar'], mod, c['method'])
+        if out == '(err F (other Pending))':
+            return '(out pending)'
+        return '(out %s)' % out
+
+    def ensure_answer(k):
+        c = calls[k]
+        if c['answered']:
+            return
+        c['answered'] = True
+        steps.append(['answer %d %s' % (k, reply_desc(mod, c['method'], c['handler'])),
+                      '(frame x%s)' % c['stream'].hex()])
+
+    def deliver(k, n):
+        c = calls[k]
+        n = min(n, len(c['stream']) - c['pos'])
+        if n <= 0:
+            return
+        ensure_answer(k)
+        open_others = [j for j in order if j != k and pending(j)]
+        router.handles[c['conn']].feed(c['stream'][c['pos']:c['pos'] + n])
+        c['pos'] += n
+        c['pieces'] += 1
+        rt.drain()
+        if c['pos'] >= len(c['stream']):
+            c['done'] = True
+            if any(j < k for j in open_others):
+                tags.add('reply-overtakes-earlier-call')
+            later = [j for j in order if j > k]
+            if any(calls[j]['method'] != c['method'] for j in later):
+                tags.add('reply-after-later-call-of-other-method')
+            if later:
+                tags.add('reply-after-later-call')
+        if open_others and any(calls[j]['pos'] > 0 for j in open_others) and c['pos'] < len(c['stream']):
+            tags.add('interleaved-chunks')
+        steps.append(['chunk %d %d' % (k, n), observe(k)])
+
+    def send(k):
+        """the call reaches a connection (straight away, or when the pool takes it off its queue)"""
+        cl = calls[k]
+        if cl['sent']:
+            return
+        method, conn, args, handler = cl['method'], cl['want'], cl['args'], cl['handler']
+        args_cls, result_cls, success, declared = method_info(mod, method)
+
+        # the connection: the one asked for if it is free, else the first free one, else a new one
+        def free(c):
+            return c not in dead and (c not in owner or not pending(owner[c]))
+        while len(router.transports) <= conn and len(router.transports) < 4:
+            router.add()
+        cands = [conn] + list(range(len(router.transports)))
+        cands = [c for c in cands if c < len(router.transports) and free(c)]
+        c = cands[0] if cands else router.add()
+        if c in owner:
+            tags.add('conn-reused')
+        h = router.handles[c]
+        before = len(h.written)
+        if cl['parked']:
+            others = [j for j in order if j != k and calls[j]['serial'] > cl['serial']]
+            if others:
+                tags.add('sent-after-later-call-was-serialized')
+            router.release(k, c)
+        else:
+            router.route = c
+            entries = [x for x in args_cls.thrift_spec if x is not None]
+            given = dict((fid, v) for fid, v in args)
+            pyargs = tuple(to_py(given.get(x[0]), x[1], x[3]) for x in entries)
+            cl['ar'] = disp.DispatchMethodCall(method, pyargs, {})
+        rt.drain()
+        sent = bytes(h.written[before:])
+        decoded, reply, seen = serve(name, sent[4:], handler) if len(sent) >= 4 else (None, None, {})
+        op = 'call %d %d %d %s' % (k, methods.index(method), c, ffmt(args))
+        if decoded is None:
+            steps.append([op, '(call x%s none)' % sent.hex()])
+        else:
+            steps.append([op, '(call x%s x%s %d %s)' % (sent.hex(), decoded[0].hex(), seen['mtype'],
+                                                         ffmt(decoded[1]))])
+        open_now = [j for j in order if j != k and calls[j]['sent'] and pending(j)]
+        if open_now:
+            tags.add('overlap')
+            if any(calls[j]['method'] != method for j in open_now):
+                tags.add('overlap-different-methods')
+            if len(open_now) >= 2:
+                tags.add('three-open')
+        value_tags(args, tags)
+        handler_tags(handler, success, declared, tags)
+        if reply is None:
+            tags.add('oracle-rejected-call')
+            reply = b''
+        cl.update({'conn': c, 'stream': (pack_i32(len(reply)) + reply) if reply else b'', 'sent': True})
+        owner[c] = k
+        if len(router.transports) >= 3:
+            tags.add('three-conns')
+
+    for e in script['events']:
+        kind, k = e[0], e[1]
+        if kind == 'call':
+            if k in calls:
+                continue
+            method, conn, args, handler = e[2], e[3], e[4], e[5]
+            parked = len(e) > 6 and bool(e[6])
+            calls[k] = {'method': method, 'want': conn, 'conn': None, 'ar': None, 'args': args, 'handler': handler,
+                        'stream': b'', 'pos': 0, 'pieces': 0, 'answered': False, 'closed': False, 'done': False,
+                        'sent': False, 'parked': parked, 'serial': len(order)}
+            order.append(k)
+            if parked:
+                # serialized now by the shared sink, held below it (as a call queued by a saturated pool,
+                # or waiting for a connection to open) until the script sends it
+                tags.add('parked')
+                args_cls = method_info(mod, method)[0]
+                entries = [x for x in args_cls.thrift_spec if x is not None]
+                given = dict((fid, v) for fid, v in args)
+                pyargs = tuple(to_py(given.get(x[0]), x[1], x[3]) for x in entries)
+                router.hold = k
+                calls[k]['ar'] = disp.DispatchMethodCall(method, pyargs, {})
+                rt.drain()
+                router.hold = None
+            else:
+                send(k)
+            continue
+        if k not in calls or calls[k]['closed']:
+            continue
+        send(k)
+        if kind == 'send':
+            continue
+        if kind == 'chunk':
+            deliver(k, e[2])
+        elif kind == 'rest':
+            c = calls[k]
+            if e[2] == 'ones':
+                for _ in range(MULTI_ONES):
+                    deliver(k, 1)
+                tags.add('one-byte-pieces')
+            deliver(k, len(c['stream']) - c['pos'])
+        elif kind == 'close':
+            c = calls[k]
+            if owner.get(c['conn']) != k or c['conn'] in dead:
+                continue
+            if not c['answered']:
+                tags.add('closed-before-answer')
+            if not c['done']:
+                tags.add('server-closed-early')
+            router.handles[c['conn']].server_close()
+            rt.drain()
+            c['closed'] = True
+            c['done'] = True
+            dead.add(c['conn'])
+            steps.append(['close %d' % k, observe(k)])
+    for k in order:
+        if calls[k]['pieces'] > 1:
+            tags.add('chunked')
+    errs = rt.take_errors()
+    if errs:
+        tags.add('hub-error')
+        steps.append(['close 999', '(out (err F (other Hub-%s)))' % errs[0][0]])
+    disp.Close()
+    rt.drain()
+    rt.take_errors()
+    return {'comp': SHARED, 'cfg': cfg, 'steps': steps, 'tags': sorted(tags)}
+
+
+# ====================================================================== entry points
+def is_multi(script):
+    return script.get('kind') == 'multi'
+
+
+def gen_script(rng, tier):
+    if rng.random() < 0.3:
+        return gen_multi(rng, tier)
+    return gen_single(rng, tier)
+
+
+def exhaustive(tier, shard, shards):
+    for s in exhaustive_single(tier, shard, shards):
+        yield s
+    for s in exhaustive_multi(tier, shard, shards):
+        yield s
+
+
+def shrink(script):
+    return shrink_multi(script) if is_multi(script) else shrink_single(script)
+
+
+def run_script(script):
+    return run_multi(script) if is_multi(script) else run_single(script)
